@@ -58,10 +58,10 @@ class UUBlock(nn.Module):
 def cases(draw, tier):
     family = draw(st.sampled_from(["program", "program", "program", "uu"]))
     c = dict(family=family, seed=draw(st.integers(0, 10**6)), calls=draw(st.integers(1, 3)))
-    q = draw(st.sampled_from([None] + list(QUANTS)))
+    q = draw(st.sampled_from([None] + list(QUANTS) * 2))
     if family == "program":
         c["prog"] = draw(dsl.unit_programs(max_ops=10))
-        u = draw(st.booleans())
+        u = draw(st.sampled_from([True, True, True, False]))
         chain = (["unit_scale"] if u else []) + ([q] if q else [])
         if len(chain) == 2 and draw(st.booleans()):
             chain = chain[::-1]
@@ -73,7 +73,7 @@ def cases(draw, tier):
     if not chain:
         chain = [draw(st.sampled_from(list(QUANTS)))]
     c["chain"] = chain
-    ends = [None, None, "track_scales"] + (["compile"] if tier == "thorough" and all(t == "unit_scale" for t in chain) and draw(st.integers(0, 9)) == 0 else [])
+    ends = [None, "track_scales"] + (["compile"] if tier == "thorough" and all(t == "unit_scale" for t in chain) and draw(st.integers(0, 9)) == 0 else [])
     c["end"] = draw(st.sampled_from(ends))
     return c
 
